@@ -6,6 +6,7 @@ CONSTANTS
   CutArgs <- MC_CutsFew
   Fmts <- MC_FmtsOne
   MaxHist = 4
+  ExtNames <- MC_ExtNone
   AsFound_AliasWhenNoCutoff = FALSE
   AsFound_PopOnStore = FALSE
   AsFound_BaseCsvDropsT = FALSE
